@@ -6,7 +6,7 @@ from engine.common import Run, VERIF, main_wrapper, Obligation
 from checks.registry import REGISTRY
 
 LOCK = os.path.join(VERIF, 'obligations.lock.json')
-_SUFFIX = re.compile(r'/(p|r|x)\d+$')
+_SUFFIX = re.compile(r"/(p|r|x|c)\d+$")
 
 
 def clause_of(name):
